@@ -275,6 +275,14 @@ def mt_run(lz, D, S, T, su, threads, lower=0, chunk=None):
 
 
 def run(ctx):
+    if ctx.replay:
+        obj = json.load(open(ctx.replay)).get("replay") or {}
+        if obj.get("kind") == "trace":
+            tracev.validate(ctx, "TraceMemLimit", [(obj.get("label", "replay"), obj["events"])],
+                            lambda lab, e, i: "trace:%s:%s:%s" % (lab.split("|")[0].split(":")[0], e.get("e"), e.get("ret", "")),
+                            cfg=cfg_with(ctx, "TraceMemLimit.cfg", set(), "TraceMemLimit.replay.cfg"))
+            return ctx.finish(rule="replay: re-validation of a recorded run", trusted=["TLC"])
+        # other kinds (threaded run, xz plan): the whole quick tier is cheap, rerun it
     from harness.pydrv import lz, coders
     from harness.pydrv import c09drv as D
     Lb = build.lib("asan")
